@@ -156,11 +156,15 @@ def extras(ctx, replay=None):
     a = kahn_diff(ctx)
     b = real_thread_runs(ctx)
     c = registry_cycle_runs(ctx)
+    # the default scheduler's priorities (Model/Greedy.lean) against greedy.get_priority_mapping
+    from harness import greedy_model
+    d = greedy_model.explore_greedy(ctx, 60 if ctx.tier == "quick" else 1500)
     cov = dict(a["coverage"])
     cov.update(b["coverage"])
     cov.update(c["coverage"])
+    cov.update(d["coverage"])
     return {"violations": a["violations"] + b["violations"] + c["violations"],
-            "disagreements": a["disagreements"] + b["disagreements"], "coverage": cov}
+            "disagreements": a["disagreements"] + b["disagreements"] + d["disagreements"], "coverage": cov}
 
 
 explore, search, replay = make({"C07"}, user_q=(50, 10, 40), user_t=(1200, 300, 1200), extra=extras)
